@@ -70,6 +70,7 @@ structure Disp where
   url : String
   parts : List Part
   first : String
+  resp : Nat := 0                     -- remedies active on the response leg of the early answer
 deriving Repr
 
 /-- One `build` (a declaration order) with the requests answered by that tree. -/
@@ -215,6 +216,16 @@ def dispOk (eps : List Endpoint) (g : Globals) (method : String) (u : Url) (firs
   eps.any fun e => e.method == method && «matches» e.parts u &&
     e.remedies.any (fun r => r.enabled && r.name == first)
 
+/-- (D) response leg of an early answer: the remedies run on the synthesised response are those of the SAME
+    endpoint policy the request's (method, URL) selects (answer `a`), plus the global ones — observed through
+    the retry remedies, the ones that act on a response (at most one acts: `resp` is 1 iff one is selected). -/
+def respLegOk (eps : List Endpoint) (g : Globals) (method : String) (u : Url) (a : Answer) (resp : Nat) : Bool :=
+  match a.pol with
+  | none => resp == (if retryCount g.remedies > 0 then 1 else 0)
+  | some _ => eps.any fun e => soundFor eps method u a e &&
+      resp == (if retryCount ((group eps method e.parts).flatMap (·.remedies)) + retryCount g.remedies > 0
+               then 1 else 0)
+
 /-- The whole per-request property. -/
 def reqOk (eps : List Endpoint) (g : Globals) (method : String) (u : Url) (a : Answer) : Bool :=
   soundOk eps method u a && mostSpecificOk eps method u a && paramsOkA eps method u a &&
@@ -261,8 +272,16 @@ def reqVerdicts (g : Globals) (r : Round) : List Verdict :=
 def dispVerdicts (g : Globals) (r : Round) : List Verdict :=
   if r.built != "ok" then [] else
   r.disps.filterMap fun d =>
-    if dispOk r.eps g d.method d.parts d.first then none
-    else some ⟨classifyReq r.eps d.parts, s!"dispatcher-applied-unentitled-remedy {d.method} {d.url} first={d.first}"⟩
+    if !dispOk r.eps g d.method d.parts d.first then
+      some ⟨classifyReq r.eps d.parts, s!"dispatcher-applied-unentitled-remedy {d.method} {d.url} first={d.first}"⟩
+    else
+      -- the response leg, against what the request leg selected for the same (method, URL) in this round
+      match r.reqs.find? (fun q => q.method == d.method && q.parts == d.parts) with
+      | some q =>
+        if respLegOk r.eps g d.method d.parts q.ans d.resp then none
+        else some ⟨classifyReq r.eps d.parts,
+          s!"early-response-leg-ran-another-policy {d.method} {d.url} resp={d.resp} pol={q.ans.pol.getD "-"}"⟩
+      | none => none
 
 def classifyOrder (eps : List Endpoint) : String :=
   if cfgBoundaryMix eps then "F13c" else "-"
